@@ -30,6 +30,7 @@ func checkC02(c *Ctx, r *Report) {
 	checkDMBlockInterleave(c, r)
 	checkDMEccOrder(c, r)
 	checkDMFrame(c, r)
+	checkDMSweep(c, r)
 	checkDMDeinterleave(c, r)
 	// codeword-level agreement of the mode encoders with the bit-stream parser
 	checkDMAscii(c, r)
@@ -41,6 +42,10 @@ func checkC02(c *Ctx, r *Report) {
 	checkDMMacros(c, r)
 	checkDMX12EOD(c, r)
 	checkDMEdifactEOD(c, r)
+	checkDMCharset(c, r)
+	// the statement quantifies over the requested pixel size: the rendering terms (same obligations as under C14)
+	declareRenderRules(r, 1)
+	renderDM(c, r)
 	checkPureAxis(c, r, [][2]string{{"datamatrix", "extractPureBits"}, {"datamatrix", "moduleSize"}})
 	// error discipline
 	runEDrop(c, r, []string{"datamatrix", "datamatrix/encoder", "datamatrix/decoder", "datamatrix/detector"}, 10)
@@ -59,7 +64,7 @@ func checkC02(c *Ctx, r *Report) {
 	runEXOR(c, r, nf, roots, 4)
 	reach := nf.reachableFrom(roots)
 	runENIL(c, r, nf, reach, 1)
-	r.Note("decided: tables, generators, randomisation, placement, interleave (C08 rules); per-character / per-group agreement between each mode encoder and the parser over their whole finite domains (ASCII incl. upper shift and digit pairs, latch codewords, C40 / Text shift sets, X12, EDIFACT, the 16-bit triple packing, the Base 256 length field and data incl. the to-end-of-symbol form), with the decoded text compared as text (Latin-1 characters above 0x7F must come out as those characters); error discipline of the chain. Not decided: look-ahead optimality, termination of the mode loop (needs a ranking argument over position, pending mode and rewinds), end-of-data unlatch choices, the round trip itself")
+	r.Note("decided: tables, generators, randomisation, placement, interleave (C08 rules); per-character / per-group agreement between each mode encoder and the parser over their whole finite domains (ASCII incl. upper shift and digit pairs, latch codewords, C40 / Text shift sets, X12, EDIFACT, the 16-bit triple packing, the Base 256 length field and data incl. the to-end-of-symbol form), with the decoded text compared as text (Latin-1 characters above 0x7F must come out as those characters); error discipline of the chain. End of data is decided for X12 and EDIFACT (unlatch omitted only where the parser leaves the mode by itself); finder / clock / data-region layout and the decoder's de-interleave for all 30 sizes. Not decided: look-ahead optimality, termination of the mode loop (needs a ranking argument over position, pending mode and rewinds), the end-of-data choices of C40 / Text, the round trip itself")
 }
 
 // ---------------------------------------------------------------------------------------------------------------
@@ -1356,7 +1361,12 @@ func checkDMEdifactEOD(c *Ctx, r *Report) {
 	bad := ""
 	states := 0
 	for _, cw := range []int64{1, 2, 3, 4, 5, 6, 7, 8, 9, 10, 11, 12, 16, 17, 18} {
-		for rem := int64(0); rem <= 4 && bad == ""; rem++ {
+		for remX := int64(0); remX <= 9 && bad == ""; remX++ {
+			// rem characters follow; ext: they are characters above 0x7F, which take two codewords each in ASCII encodation
+			rem, ext := remX%5, remX >= 5
+			if ext && rem == 0 {
+				continue
+			}
 			for count := int64(1); count <= 4 && bad == ""; count++ {
 				// cw codewords written so far; count-1 characters and the unlatch are buffered; rem characters follow
 				states++
@@ -1366,9 +1376,25 @@ func checkDMEdifactEOD(c *Ctx, r *Report) {
 				var written []int64
 				symCap := int64(-1)
 				h := &rpf{unroll: 100}
+				msgVal := &Val{K: VList}
+				for i := int64(0); i < L; i++ {
+					ch := int64('A')
+					if i >= pos {
+						ch = 'a'
+						if ext {
+							ch = 0xE9
+						}
+					}
+					msgVal.L = append(msgVal.L, &Val{K: VInt, I: ch, T: types.Typ[types.Byte]})
+				}
 				h.selHook = func(rr *rpf, sel *ast.SelectorExpr) (*Val, bool) {
-					if sel.Sel.Name == "pos" {
+					switch sel.Sel.Name {
+					case "pos":
 						return vint(curPos), true
+					case "msg":
+						return msgVal, true
+					case "skipAtEnd":
+						return vint(0), true
 					}
 					return nil, false
 				}
@@ -1386,6 +1412,13 @@ func checkDMEdifactEOD(c *Ctx, r *Report) {
 					}
 					total := cw + int64(len(written))
 					switch fn.Name() {
+					case "GetMessage":
+						return msgVal, true
+					case "GetCurrentChar":
+						if curPos < 0 || curPos >= L {
+							rpfFail("GetCurrentChar outside the message")
+						}
+						return msgVal.L[curPos], true
 					case "UpdateSymbolInfo":
 						if symCap < total {
 							symCap = capFor(total)
@@ -1448,11 +1481,21 @@ func checkDMEdifactEOD(c *Ctx, r *Report) {
 				}
 				after := cw + int64(len(written))
 				remAfter := L - curPos
-				finalCap := capFor(after + remAfter)
+				// what follows is written in ASCII encodation: one codeword per character, two for a character above 0x7F (only
+				// the rem characters after the cursor can be such; handed-back buffered characters are EDIFACT characters)
+				need := remAfter
+				if ext {
+					need += rem
+				}
+				finalCap := capFor(after + need)
 				if finalCap < 0 {
 					continue
 				}
-				where := fmt.Sprintf("%d codewords written, %d character(s) and the unlatch buffered, %d character(s) to follow", cw, count-1, rem)
+				kind := "character(s)"
+				if ext {
+					kind = "character(s) above 0x7F (two codewords each)"
+				}
+				where := fmt.Sprintf("%d codewords written, %d character(s) and the unlatch buffered, %d %s to follow", cw, count-1, rem, kind)
 				if len(written) == 0 {
 					// nothing written: no unlatch in the stream, the parser must leave by itself at this group boundary
 					if finalCap-after > K {
@@ -1469,4 +1512,95 @@ func checkDMEdifactEOD(c *Ctx, r *Report) {
 	}
 	r.Extra("edifact_eod_states", states)
 	reportFold(r, c, "S-DMEDIEOD", key, efd.Pos(), bad)
+}
+
+// M-DMCHARSET: the message is transcoded with ISO-8859-1, the character set the parser's text model assumes
+func checkDMCharset(c *Ctx, r *Report) {
+	r.Rule("M-DMCHARSET", "NewEncoderContext converts the message with charmap.ISO8859_1.NewEncoder().Bytes - the very character set in which the parser hands the codewords back as text - returns an error, and no context, when that conversion fails (text outside ISO-8859-1 is refused, never written as other characters), and builds the context's message from the converted bytes only", 1)
+	f := c.ssaFunc("datamatrix/encoder", "NewEncoderContext")
+	key := "datamatrix/encoder.NewEncoderContext"
+	if f == nil {
+		r.AnchorLost("M-DMCHARSET", key, "function not found")
+		return
+	}
+	r.Analysed(key)
+	var conv *ssa.Call
+	bad := ""
+	for _, b := range f.Blocks {
+		for _, in := range b.Instrs {
+			call, ok := in.(*ssa.Call)
+			if !ok {
+				continue
+			}
+			g := call.Call.StaticCallee()
+			if g == nil || g.Name() != "Bytes" || g.Pkg == nil || g.Pkg.Pkg.Path() != "golang.org/x/text/encoding" {
+				continue
+			}
+			if conv != nil {
+				bad = "more than one conversion of the message"
+			}
+			conv = call
+		}
+	}
+	if conv == nil && bad == "" {
+		bad = "the message is not converted with an encoding.Encoder's Bytes"
+	}
+	if bad == "" {
+		// receiver: (*charmap.Charmap).NewEncoder() on the package variable charmap.ISO8859_1
+		recv := conv.Call.Args[0]
+		ne, ok := recv.(*ssa.Call)
+		okEnc := false
+		if ok {
+			if g := ne.Call.StaticCallee(); g != nil && g.Name() == "NewEncoder" && len(ne.Call.Args) == 1 {
+				if ld, ok := ne.Call.Args[0].(*ssa.UnOp); ok && ld.Op == token.MUL {
+					if gl, ok := ld.X.(*ssa.Global); ok && gl.Name() == "ISO8859_1" && gl.Pkg != nil && gl.Pkg.Pkg.Path() == "golang.org/x/text/encoding/charmap" {
+						okEnc = true
+					} else if ok {
+						bad = fmt.Sprintf("the message is converted with %s, the parser's text model is ISO-8859-1", gl.Name())
+					}
+				}
+			}
+		}
+		if !okEnc && bad == "" {
+			bad = "the encoder is not charmap.ISO8859_1.NewEncoder()"
+		}
+	}
+	if bad == "" {
+		// the conversion error leads to an error return without a context
+		var errVal ssa.Value
+		for _, ref := range *conv.Referrers() {
+			if ex, ok := ref.(*ssa.Extract); ok && ex.Index == 1 {
+				errVal = ex
+			}
+		}
+		okErr := false
+		if errVal != nil {
+			for _, b := range f.Blocks {
+				if len(b.Instrs) == 0 {
+					continue
+				}
+				iff, ok := b.Instrs[len(b.Instrs)-1].(*ssa.If)
+				if !ok {
+					continue
+				}
+				bo, ok := iff.Cond.(*ssa.BinOp)
+				if !ok || bo.Op != token.NEQ || bo.X != errVal {
+					continue
+				}
+				for _, in := range b.Succs[0].Instrs {
+					if ret, ok := in.(*ssa.Return); ok && len(ret.Results) == 2 {
+						if cst, isC := ret.Results[0].(*ssa.Const); isC && cst.IsNil() {
+							if cst2, isC2 := ret.Results[1].(*ssa.Const); !isC2 || !cst2.IsNil() {
+								okErr = true
+							}
+						}
+					}
+				}
+			}
+		}
+		if !okErr {
+			bad = "a failed conversion does not lead to (nil, error)"
+		}
+	}
+	r.Check(bad == "", "M-DMCHARSET", key, c.pos(f.Pos()), bad)
 }
